@@ -4,8 +4,8 @@ import common, gen, sqlgen, qast, qgen
 from common import Report, log
 
 MANIFEST = dict(
-    technique='Coq proof over a faithful model of Scanner.Scan (pkg/sql/security/scanner.go) on query trees traversed with the regenerated Children() table + position enumeration of the reference grammar (context closure = C14 completeness o local detector) + model-vs-implementation correspondence on reflected real trees x 4 thresholds + payload x position x layout x threshold oracle',
-    text='Theorems C16_context_closed (for EVERY statement of the reference grammar and EVERY expression / statement position in it, at any nesting, what the local detector reports on the payload node is reported by the scan), C16_threshold_filter (scan m = filter (sev >= m) (scan LOW), order and multiplicity kept), C16_counts_consistent, C16_scan_pure, C16_findings_sound and the per-payload detector lemmas (tautologies, OR-tautology, time-delay and dangerous functions, UNION with NULL columns / system tables; any letter case) are proved with no bound. The model is tied to the code on every run by the regenerated Children() table, by evaluating the model on the reflective dump of real parsed trees against the real findings (multiset of (pattern, severity)) for the four thresholds, and by prescribed tree = parsed tree for every rendered layout. An implementation-side oracle places every documented payload in every condition / expression / query position of the grammar (composed to depth 3), in 4 layouts, and checks presence with documented class and severity, exact threshold filtering, counts = lists, helper predicates, tree snapshot unchanged, results independent of earlier scans on a long-lived Scanner. ScanSQL (regular expressions) is exercised by the oracle only.',
+    technique='Coq proof over a faithful model of Scanner.Scan (pkg/sql/security/scanner.go) on query trees traversed with the regenerated Children() table started from the statements the probed roots table admits (the choice of roots made by Scan is part of the model) + position enumeration of the reference grammar (context closure = roots o C14 completeness o local detector) + model-vs-implementation correspondence on reflected real trees x 4 thresholds + payload x position x layout x threshold oracle',
+    text='Theorems C16_context_closed (for EVERY statement of the reference grammar - queries, DML and the statements that carry a query or an expression without being queries: CREATE VIEW / MATERIALIZED VIEW ... AS query, CREATE INDEX ... WHERE, CREATE TABLE ... DEFAULT / CHECK, EXPLAIN query - and EVERY expression / statement position in it, at any nesting and any depth (structural induction, no bound), what the local detector reports on the payload node is reported by the scan), C16_statement_is_root (the scan starts from the statement whatever its type: hypothesis roots_cover scan_root discharged on the roots table probed on the compiled Scan each run), C16_threshold_filter (scan m = filter (sev >= m) (scan LOW), order and multiplicity kept), C16_counts_consistent, C16_scan_pure, C16_findings_sound and the per-payload detector lemmas (tautologies, OR-tautology, time-delay and dangerous functions, UNION with NULL columns / system tables; any letter case) are proved with no bound. The model is tied to the code on every run by the regenerated Children() table, by evaluating the model on the reflective dump of real parsed trees against the real findings (multiset of (pattern, severity)) for the four thresholds, by prescribed tree = parsed tree for every rendered layout, and by both correspondences on flat operator chains of 150 (quick) / 400 (thorough) operands with the payload among the first operands (trees as deep as they are long). C16_explain_query_dropped_refuted records the defect the extended grammar exposed (EXPLAIN query: the parser dropped the query; repaired in /repo c61589e). An implementation-side oracle places every documented payload in every condition / expression / query position of the grammar (composed to depth 3), in 4 layouts, and checks presence with documented class and severity, exact threshold filtering, counts = lists, helper predicates, tree snapshot unchanged, results independent of earlier scans on a long-lived Scanner. ScanSQL (regular expressions) is exercised by the oracle only.',
     note=common.BASE_NOTE + "C16: ScanSQL's regular expressions are not modelled (Go regexp semantics) - oracle only. Unicode case mapping of operator / function names is not modelled (ASCII upper).",
     design='6/C16')
 
@@ -581,7 +581,9 @@ def run(tier):
     rp.cov["rule"] = ("every documented payload (tautologies 1=1, 'a'='a', col=col, OR 1=1; SLEEP/pg_sleep/BENCHMARK/WAITFOR; LOAD_FILE/xp_cmdshell/sp_OACreate/UTL_HTTP/DBMS_LDAP/sp_executesql; "
                       "UNION SELECT NULL,NULL / UNION SELECT .. FROM system table) x every position of the reference grammar that can hold it "
                       "(WHERE, AND/OR/NOT operands, HAVING, JOIN ON, CASE, select item, function arguments, IN list, BETWEEN, CAST, GROUP/ORDER BY, INSERT VALUES, UPDATE SET/WHERE, DELETE WHERE, MERGE ON/WHEN/SET/VALUES, "
-                      "derived table (also as first item of a join), join right side, IN/EXISTS/scalar sub-query, CTE body, INSERT..SELECT, set-operation operands, grafted UPDATE..FROM / DELETE..USING / MERGE source), composed to depth 3, "
+                      "derived table (also as first item of a join), join right side, IN/EXISTS/scalar sub-query, CTE body, INSERT..SELECT, set-operation operands, grafted UPDATE..FROM / DELETE..USING / MERGE source, "
+                      "body of CREATE [OR REPLACE] VIEW / CREATE MATERIALIZED VIEW / EXPLAIN / DESCRIBE, CREATE INDEX ... WHERE, CREATE TABLE column DEFAULT / column CHECK / table CHECK), composed to depth 3, "
+                      "flat OR / AND / || / + / UNION ALL chains of 150|400 operands with the payload among the first operands (also as view body and index predicate), "
                       "x 4 layouts (keyword case, whitespace, redundant parentheses, optional AS) x 4 thresholds; distinct = distinct (payload, position); non-trivial = accepted by the parser")
     rp.cov["samples"] = [{"sql": d["sql"][:160], "position": c["position"], "expected": c["expected"], "findings_low": r["runs"][0]["f"] if r["accepted"] else None}
                          for (c, li), d, r in list(zip(meta, inputs, res))[:3]]
